@@ -481,4 +481,133 @@ theorem progress (cfg : Cfg) (hc : cfg.lockedWait = false) (s : St) (hI : Inv cf
         have := (hsm hss j).1 hsmu
         rcases hwm j with h | h <;> simp [h] at this
 
+/-! ### termination: steps that need nothing from outside cannot go on for ever -/
+
+/-- an upper bound on the number of steps a client still needs to finish its call -/
+def wc : CPc → Nat
+  | .idle => 0
+  | .inS => 1 | .wantS => 2
+  | .inW => 2 | .wantW => 3
+  | .relM => 1 | .inF => 2 | .wantF => 3 | .waitDone => 4 | .inTwait => 4 | .inT => 5 | .wantT => 6 | .wantM => 7
+
+/-- … and of the flush goroutine until it is back in its `select` (plus one for leaving it) -/
+def wl : LPc → Nat
+  | .none_ => 0 | .finished => 0 | .select => 1 | .inS => 2 | .wantS => 3
+
+def sumW (f : Nat → CPc) : Nat → Nat
+  | 0 => 0
+  | n + 1 => sumW f n + wc (f n)
+
+def measure (n : Nat) (s : St) : Nat := sumW s.cl n + wl s.loop
+
+theorem sumW_upd_ge (f : Nat → CPc) (i : Nat) (v : CPc) : ∀ n, n ≤ i → sumW (upd f i v) n = sumW f n := by
+  intro n
+  induction n with
+  | zero => intro _; rfl
+  | succ n ih =>
+    intro h
+    have hne : n ≠ i := by omega
+    simp only [sumW, ih (by omega), upd_other f v hne]
+
+theorem sumW_upd (f : Nat → CPc) (i : Nat) (v : CPc) : ∀ n, i < n → sumW (upd f i v) n + wc (f i) = sumW f n + wc v := by
+  intro n
+  induction n with
+  | zero => intro h; omega
+  | succ n ih =>
+    intro h
+    by_cases hi : i = n
+    · subst hi
+      simp only [sumW, sumW_upd_ge f i v i (Nat.le_refl _), upd_same]; omega
+    · have hne : n ≠ i := fun h => hi h.symm
+      have := ih (by omega)
+      simp only [sumW, upd_other f v hne]; omega
+
+theorem wc_le_sumW (f : Nat → CPc) (i : Nat) : ∀ n, i < n → wc (f i) ≤ sumW f n := by
+  intro n
+  induction n with
+  | zero => intro h; omega
+  | succ n ih =>
+    intro h
+    by_cases hi : i = n
+    · subst hi; simp only [sumW]; omega
+    · have := ih (by omega); simp only [sumW]; omega
+
+theorem sumW_upd' (f : Nat → CPc) (i : Nat) (v : CPc) (n : Nat) (h : i < n) :
+    sumW (upd f i v) n = sumW f n + wc v - wc (f i) := by
+  have := sumW_upd f i v n h
+  omega
+
+theorem cstep_decreases (cfg : Cfg) (s s' : St) (i : Nat) (hI : Inv cfg s) (h : cstep cfg s i = some s') :
+    measure cfg.n s' < measure cfg.n s := by
+  have hlt : i < cfg.n := by
+    apply Nat.lt_of_not_le
+    intro hle
+    have := cstep_idle cfg s i (hI.bound i hle)
+    rw [this] at h; cases h
+  have h4 := hI.loop_init
+  have hle := wc_le_sumW s.cl i cfg.n hlt
+  unfold cstep at h
+  split at h
+  all_goals (try split at h)
+  all_goals (try split at h)
+  all_goals (first | (cases h; done) | skip)
+  all_goals (injection h with h; subst h)
+  all_goals (
+    have heq := ‹s.cl i = _›
+    rw [heq] at hle
+    simp only [measure, sumW_upd' _ _ _ _ hlt, heq, wc] at hle ⊢
+    first
+    | omega
+    | (have hl : s.loop = .none_ := h4.2 (by simp_all)
+       simp only [hl, wl]; omega))
+
+theorem lstep_decreases (n : Nat) (s s' : St) (h : lstep s = some s') : measure n s' < measure n s := by
+  unfold lstep at h
+  split at h
+  all_goals (try split at h)
+  all_goals (first | (cases h; done) | skip)
+  all_goals (injection h with h; subst h; simp_all [measure, wl])
+
+theorem internal_decreases (cfg : Cfg) (s s' : St) (a : Act) (hI : Inv cfg s) (ha : a.internal = true)
+    (h : step cfg s a = some s') : measure cfg.n s' < measure cfg.n s := by
+  cases a with
+  | client i => exact cstep_decreases cfg s s' i hI h
+  | loop => exact lstep_decreases cfg.n s s' h
+  | write i => cases ha
+  | sync i => cases ha
+  | stop i => cases ha
+  | tick => cases ha
+
+/-- **every call completes**: from every reachable state of the repaired protocol, finitely many steps that need
+    no new call and no tick lead to a quiescent state -/
+theorem quiesces (cfg : Cfg) (hc : cfg.lockedWait = false) : ∀ (m : Nat) (s : St), Reach cfg s → measure cfg.n s ≤ m →
+    ∃ acts s', (∀ a ∈ acts, a.internal = true) ∧ runActs cfg s acts = some s' ∧ Quiescent s' := by
+  intro m
+  induction m with
+  | zero =>
+    intro s hr hm
+    have hI := inv_reach cfg hc s hr
+    by_cases hq : Quiescent s
+    · exact ⟨[], s, by simp, rfl, hq⟩
+    · obtain ⟨a, ha, hs⟩ := progress cfg hc s hI hq
+      cases hst : step cfg s a with
+      | none => rw [hst] at hs; cases hs
+      | some t => have := internal_decreases cfg s t a hI ha hst; omega
+  | succ m ih =>
+    intro s hr hm
+    have hI := inv_reach cfg hc s hr
+    by_cases hq : Quiescent s
+    · exact ⟨[], s, by simp, rfl, hq⟩
+    · obtain ⟨a, ha, hs⟩ := progress cfg hc s hI hq
+      cases hst : step cfg s a with
+      | none => rw [hst] at hs; cases hs
+      | some t =>
+        have hd := internal_decreases cfg s t a hI ha hst
+        obtain ⟨acts, s', h1, h2, h3⟩ := ih t (reach_step cfg s t a hr hst) (by omega)
+        refine ⟨a :: acts, s', ?_, by simp only [runActs, hst]; exact h2, h3⟩
+        intro x hx
+        rcases List.mem_cons.mp hx with rfl | hx
+        · exact ha
+        · exact h1 x hx
+
 end ZapVerif.BwsConc
